@@ -153,6 +153,9 @@ class Caller(object):
             "rig.place_and_route.routing_tree").RoutingTree
         self.Links = rig_module("rig.links").Links
         self.snapshots = 0
+        # objects the *caller* owns and passes to several calls
+        self.tagsets = [set(["t1"]), set(["t1", "t2"]), set(["t3"])]
+        self.tagsets_orig = [set(x) for x in self.tagsets]
 
     def snap(self, args):
         self.snapshots += 1
@@ -339,9 +342,11 @@ class Caller(object):
             try:
                 if k == 0:
                     nm = names[t.draw(4)]
+                    tg = [None, "t1", "t1 t2", self.tagsets[0],
+                          self.tagsets[1], self.tagsets[2],
+                          ["t2", "t3"]][t.draw(7)]
                     v.add_field(nm, [None, 2, 4][t.draw(3)],
-                                [None, None, 0, 8][t.draw(4)],
-                                [None, "t1", "t1 t2"][t.draw(3)])
+                                [None, None, 0, 8][t.draw(4)], tg)
                     log.append(("add", nm, "ok"))
                 elif k == 1:
                     nm = names[t.draw(4)]
@@ -370,6 +375,12 @@ class Caller(object):
                 log.append(("mask", v.get_mask()))
             except Exception as e:
                 log.append(("mask", type(e).__name__))
+        if self.tagsets != self.tagsets_orig:
+            self.w.violate("MUT", "BitField.add_field modified the set passed "
+                           "as tags=: %r, the caller built %r"
+                           % ([sorted(x) for x in self.tagsets],
+                              [sorted(x) for x in self.tagsets_orig]),
+                           kind="argument-mutated", call="bitfield")
         return "bitfield", canon(log)
 
     def call_controller(self, t):
